@@ -21,8 +21,8 @@ run_area() {
   done
   git -C $W reset -q --hard
 }
-for d in /tmp/rf/out/*/; do run_area $(basename $d) & done
-wait
+export -f run_area; export BIN HEAD
+ls /tmp/rf/out | xargs -P 4 -I{} bash -c 'run_area {}'
 total=$(cat /tmp/rfall/*.out | grep -c 'alarms:'); bad=$(cat /tmp/rfall/*.out | grep 'alarms:' | grep -vc 'alarms: \[\]')
 echo "refactor patches: $total run, $bad with alarms"
 cat /tmp/rfall/*.out | grep 'alarms:' | grep -v 'alarms: \[\]'
